@@ -78,7 +78,7 @@ func lenLexIdx(k string) int {
 }
 
 func ordinary[K interface {
-	~int | ~string | ~uint16
+	~int | ~string | ~uint16 | ~float64
 }](start int, mk func(int) K, unmk func(K) int) *adapter[K] {
 	var l *listz.SkipList[K, int]
 	switch start {
@@ -147,7 +147,7 @@ var opNames = []string{"Set", "SetNx", "SetX", "Remove", "Get", "GetNode", "Len"
 
 func gen(r *sim.Rng, tier string) *sim.Case {
 	c := &sim.Case{Params: map[string]int{}}
-	kind := r.N(7)
+	kind := r.N(8)
 	c.Params["kind"] = kind
 	start := r.Pick(4, 2, 3)
 	if kind >= 3 && start == 2 {
@@ -601,6 +601,9 @@ func exec(c *sim.Case, out *sim.WorkerOut) (*sim.Violation, bool) {
 		}, func(k string) int { var i int; fmt.Sscanf(k, "k%04d", &i); return i }), out, dg)
 	case 2:
 		v, nt = execTyped(c, ordinary(start, func(i int) uint16 { return uint16(i * 32) }, func(k uint16) int { return int(k) / 32 }), out, dg)
+	case 7:
+		// floating-point keys: negative, fractional, and index 2 is 0.0 (the zero value of the key type)
+		v, nt = execTyped(c, ordinary(start, func(i int) float64 { return float64(i-2) * 0.25 }, func(k float64) int { return int(k*4) + 2 }), out, dg)
 	case 3:
 		v, nt = execTyped(c, withCmp(start, func(a, b int) int { return a - b }, func(i int) int { return i }, func(k int) int { return k }, func(i int) int { return i }), out, dg)
 	case 4:
